@@ -76,7 +76,20 @@ Proof.
     change [mkFrame init_vals None] with (erase_env [mkFrame init_vals (f_dbg fn)]).
     rewrite IH. destruct (exec f funs (f_body fn) [mkFrame init_vals (f_dbg fn)] g ev) as [en1 g1 ev1| | |]; simpl; try reflexivity.
     destruct en1 as [|fr en1]; simpl; [reflexivity|]. destruct en1; reflexivity.
+  - destruct comp; reflexivity.
 Qed.
+
+(* a breakpoint statement compiles to the same code under every option set, and that code never is the nil-Comp form *)
+Lemma compile_break o depth : compile o depth SBreak = CBreak (Some depth).
+Proof. reflexivity. Qed.
+
+Lemma exec_break fuel funs d en g ev : exec (S fuel) funs (CBreak (Some d)) en g ev = ROk en g ev.
+Proof. reflexivity. Qed.
+
+Lemma breakpoint_option_independent : forall o depth fuel funs en g ev,
+  compile o depth SBreak = CBreak (Some depth) /\
+  exec (S fuel) funs (compile o depth SBreak) en g ev = ROk en g ev.
+Proof. intros; split; [apply compile_break | apply exec_break]. Qed.
 
 Lemma run_main_erase fuel funs :
   run_main fuel (map erase_fun funs) = erase_result (run_main fuel funs).
@@ -133,7 +146,7 @@ Proof. reflexivity. Qed.
 
 (* the options are not vacuous in the model: they do change the compiled code and the report *)
 Definition ex_prog : list stmt :=
-  [SSeq (SLocal (EConst 5) (SSeq (SEmit (EAdd (EVar 0 0) (EVar 1 2))) (SCall 1))) (SGlob (EDiv (EConst 7) (EVar 0 0)));
+  [SSeq (SLocal (EConst 5) (SSeq SBreak (SSeq (SEmit (EAdd (EVar 0 0) (EVar 1 2))) (SCall 1)))) (SGlob (EDiv (EConst 7) (EVar 0 0)));
    SSeq (SAssign 0 0 (EConst 0)) (SEmit (EDiv (EConst 1) (EVar 0 0)))].
 
 Lemma ex_code_differs : map (compile_fun all_on) ex_prog <> map (compile_fun all_off) ex_prog.
